@@ -530,6 +530,18 @@ pub fn exec_isolated(check_id: &str, scenario: &Value) -> Result<Outcome, String
     serde_json::from_str(&s).map_err(|e| format!("bad exec output: {e}: {s}"))
 }
 
+/// Splits the case index space between a side arm and the main generator of a check: every
+/// `m`-th index (m odd, so the arm is spread over all workers, which take indexes i, i+16, ...)
+/// goes to the arm; the others are renumbered 0, 1, 2, ... without gaps, so an enumerated grid
+/// behind them stays complete. Returns Ok(arm ordinal) or Err(main index).
+pub fn arm_split(idx: u64, m: u64) -> Result<u64, u64> {
+    if idx % m == m - 1 {
+        Ok(idx / m)
+    } else {
+        Err(idx - idx / m)
+    }
+}
+
 pub fn run_exec(check: &dyn Check) -> i32 {
     install_panic_hook();
     let mut s = String::new();
@@ -541,6 +553,10 @@ pub fn run_exec(check: &dyn Check) -> i32 {
             return 2;
         },
     };
+    if let Ok(f) = std::env::var("DCSIM_TRACE") {
+        use tracing_subscriber::EnvFilter;
+        let _ = tracing_subscriber::fmt().with_env_filter(EnvFilter::new(f)).without_time().with_writer(std::io::stderr).try_init();
+    }
     let out = execute_guarded(check, &sc);
     println!("{}", serde_json::to_string(&out).unwrap());
     0
